@@ -578,6 +578,10 @@ def judge(w, obs, twin, info, transient, fail, stats, what, on, pl):
         # faulted cell may show that cell's error kind
         if (G.reach(i) - {i}) & direct_any:
             kinds[i].update({'e:#REF!', 'e:#NAME?'})
+        # a cell OF a transiently failing book is #REF! as a whole when the
+        # open that was meant to load it failed
+        if transient and w['cells'][i]['at'][0] in bad_books:
+            kinds[i].add('e:#REF!')
     bad_transient = transient and bool(bad_books)
     # --- C14.kind
     for i in sorted(direct_prop):
